@@ -66,6 +66,8 @@ def items(tier, seed):
                 continue
             for ch in chunks(lsc if not q else lsc[:7], per):
                 out.append(dict(name=f"warmup-{name}-w{warm}-{ch[0]}", kind="warmup", routine=name, warm=warm + (2 if name == "mrq" else 0), T=T, scripts=ch, seed=seed))
+            out.append(dict(name=f"warmup-prefilled-{name}-w{warm}", kind="warmup", routine=name, warm=warm + (2 if name == "mrq" else 0), T=T,
+                            scripts=lsc[:2] if q else lsc[:5], seed=seed, prefill=8))
     for algo in TABULAR + ["cmaes"]:
         for ch in chunks(scripts, 120):
             out.append(dict(name=f"tab-{algo}-{ch[0]}", kind="tab", algo=algo, T=T, scripts=ch, seed=seed))
@@ -167,14 +169,33 @@ def judge_run(col, entry, run, script, total, start, k, name, cont=True):
             col.violation(SIG.format(entry, kind), dict(det, returned=cnt, field=fld))
 
 
+def prefilled_buffer(name, cfg, k):
+    rb = D.new_buffer(name, cfg)
+    for i in range(k):
+        kw = dict(observation=np.array([-1.0, -float(i)], dtype=np.float32), reward=0.5, next_observation=np.array([-1.0, -float(i) - 1], dtype=np.float32))
+        kw["action"] = 0 if name in D.DISCRETE else np.zeros(1 if name == "pets" else 2, dtype=np.float32)
+        if name in D.SUBTRAJ:
+            kw.update(terminated=False, truncated=False)
+        else:
+            kw["termination"] = False
+        rb.add_sample(**kw)
+    return rb
+
+
 def warmup_item(item, col):
     name = item["routine"]
     entry = "train_" + name
     warm = item["warm"]
     for script in item["scripts"]:
         cfg = dict(buffer_size=16, env_horizon=item["T"] + 4, learning_starts=warm, batch_size=2, snap=True, seed=1 + item["seed"], net_seed=item["seed"])
+        if item.get("prefill"):
+            # the caller hands in a replay buffer that already holds data (a new agent on old experience,
+            # or a multi-task buffer): the documented warm-up still counts environment steps
+            cfg["replay_buffer"] = prefilled_buffer(name, cfg, item["prefill"])
         run = D.run(name, script, **cfg)
-        col.tick(1, (entry, "warmup", warm, script))
+        col.tick(1, (entry, "warmup", warm, script, item.get("prefill", 0)))
+        if item.get("prefill"):
+            col.outcome("warm-up_runs_with_prefilled_buffer")
         if run.error:
             col.outcome("runs_aborted_by_env_guard:" + run.error)
             continue
